@@ -17,6 +17,7 @@ Local Open Scope N_scope.
 Section Chunk.
 Context {S : Type}.
 Variable fl : flavour S.
+Variable ex : bool.        (* exact_errors *)
 Variable tb : table S.
 Variable simd : list N * list N * list N.
 Variable ent : list N -> option (N * N).
@@ -25,20 +26,20 @@ Variable sk : sinkcfg.
 
 Notation M := (mach S (list N)).
 Notation fid := (fun q : list N => q).
-Notation gpcF := (@get_preprocessed_char S (list N) fq_next fl).
-Notation get_charF := (@get_char S (list N) fq_next fl).
+Notation gpcF := (@get_preprocessed_char S (list N) fq_next fl ex).
+Notation get_charF := (@get_char S (list N) fq_next fl ex).
 Notation peekF := (@peek S (list N) fq_peek).
-Notation discard_charF := (@discard_char S (list N) fq_next fl).
-Notation discard_wsF := (@discard_ws S (list N) fq_next fl).
-Notation popF := (@pop_except_from S (list N) fq_next fq_peek fq_run1 fl simd).
+Notation discard_charF := (@discard_char S (list N) fq_next fl ex).
+Notation discard_wsF := (@discard_ws S (list N) fq_next fl ex).
+Notation popF := (@pop_except_from S (list N) fq_next fq_peek fq_run1 fl ex simd).
 Notation eat_bodyF := (@eat_body S (list N) [] fq_next fq_peek (@app N) fid).
-Notation eatF := (@eat S (list N) [] fq_next fq_peek (@app N) fid fl).
-Notation do_cmdF := (@do_cmd S (list N) fq_next fl).
+Notation eatF := (@eat S (list N) [] fq_next fq_peek (@app N) fid fl ex).
+Notation do_cmdF := (@do_cmd S (list N) fq_next fl ex).
 Notation do_termF := (@do_term S (list N) fl sk).
-Notation execF := (@exec S (list N) [] fq_next fq_peek (@app N) fid fq_run1 fl simd sk).
+Notation execF := (@exec S (list N) [] fq_next fq_peek (@app N) fid fq_run1 fl ex simd sk).
 Notation unconsumeF := (@unconsume S (list N) (@app N)).
-Notation cr_stepF := (@cr_step S (list N) fq_next fq_peek (@app N) fl ent c1).
-Notation stepF := (@step S (list N) [] fq_next fq_peek (@app N) fid fq_run1 fl tb simd ent c1 sk).
+Notation cr_stepF := (@cr_step S (list N) fq_next fq_peek (@app N) fl ex ent c1).
+Notation stepF := (@step S (list N) [] fq_next fq_peek (@app N) fid fq_run1 fl ex tb simd ent c1 sk).
 
 (* append input behind everything unread *)
 Definition ext (x : list N) (m : M) : M := m <| mq ::= (fun q => q ++ x) |>.
@@ -69,13 +70,13 @@ Proof. destruct m; reflexivity. Qed.
 
 (* ---------------------------------------------------------------- get_preprocessed_char / get_char *)
 Notation gpc_skipF := (@gpc_skip S (list N) fq_next).
-Notation gpc_postF := (@gpc_post S (list N) fl).
+Notation gpc_postF := (@gpc_post S (list N) fl ex).
 
 Lemma gpc_post_ext c x (m : M) :
   gpc_postF c (ext x m) = (fst (gpc_postF c m), ext x (snd (gpc_postF c m))).
 Proof.
-  unfold gpc_post. rewrite ext_mc.
-  destruct (gpc_decide (f_html fl) (exact (mc m)) c) as [[[c' a] b] d].
+  unfold gpc_post.
+  destruct (gpc_decide (f_html fl) ex c) as [[[c' a] b] d].
   destruct m; destruct a, b, d; reflexivity.
 Qed.
 
@@ -153,4 +154,154 @@ Proof.
   unfold get_char, get_preprocessed_char, gpc_skip, ext, upd, took, set. cbn. rewrite Hr, Hi. cbn. reflexivity.
 Qed.
 
+(* ---------------------------------------------------------------- peek / discard *)
+Lemma peek_some x (m : M) c : peekF m = Some c -> peekF (ext x m) = Some c.
+Proof.
+  destruct m as [cf q o k]. unfold peek. cbn. destruct (reconsume cf); [auto|].
+  destruct q; cbn; [discriminate|auto].
+Qed.
+Lemma peek_none (m : M) : peekF m = None -> reconsume (mc m) = false /\ mq m = [].
+Proof.
+  destruct m as [cf q o k]. unfold peek. cbn. destruct (reconsume cf); [discriminate|].
+  destruct q; cbn; [auto|discriminate].
+Qed.
+
+(* discarding the character that was just peeked (html: raw; xml: through get_char, never for a line feed) *)
+Lemma discard_char_ext x (m : M) c :
+  peekF m = Some c -> f_html fl = true \/ c <> LF ->
+  discard_charF (ext x m) = ext x (discard_charF m).
+Proof.
+  destruct m as [cf q o k]. unfold peek, discard_char. cbn. intros Hp Hc.
+  destruct (f_html fl) eqn:Hh.
+  - destruct (reconsume cf); [reflexivity|]. destruct q as [|d q']; [discriminate|]. reflexivity.
+  - destruct Hc as [Hc|Hc]; [discriminate|].
+    unfold get_char. cbn. destruct (reconsume cf); [reflexivity|].
+    destruct q as [|d q']; [discriminate|]. cbn in Hp. inversion Hp; subst d. cbn.
+    unfold get_preprocessed_char, gpc_skip. cbn.
+    replace (c =? LF) with false by (symmetry; apply N.eqb_neq; exact Hc).
+    destruct (ignore_lf cf); unfold ext, upd, took, set; cbn.
+    + match goal with |- context [gpc_postF c {| mc := ?a; mq := q' ++ x; mout := o; mcons := ?n |}] =>
+        change {| mc := a; mq := q' ++ x; mout := o; mcons := n |}
+          with (ext x {| mc := a; mq := q'; mout := o; mcons := n |}) end.
+      rewrite gpc_post_ext. destruct (gpc_postF c _); reflexivity.
+    + match goal with |- context [gpc_postF c {| mc := ?a; mq := q' ++ x; mout := o; mcons := ?n |}] =>
+        change {| mc := a; mq := q' ++ x; mout := o; mcons := n |}
+          with (ext x {| mc := a; mq := q'; mout := o; mcons := n |}) end.
+      rewrite gpc_post_ext. destruct (gpc_postF c _); reflexivity.
+Qed.
+
+Lemma discard_ws_ext x (m : M) c c0 :
+  peekF m = Some c0 -> f_html fl = true ->
+  discard_wsF c (ext x m) = ext x (discard_wsF c m).
+Proof.
+  intros Hp Hh. unfold discard_ws. rewrite ext_mc.
+  rewrite (discard_char_ext x m c0 Hp (or_introl Hh)).
+  rewrite !upd_ext. destruct ((c =? CR) || (c =? LF) && negb (ignore_lf (mc m))); rewrite ?upd_ext; reflexivity.
+Qed.
+(* ---------------------------------------------------------------- eat *)
+Lemma eat_cmp_true_ext ic p f x : eat_cmp ic p f = EatTrue -> eat_cmp ic p (f ++ x) = EatTrue.
+Proof.
+  revert f; induction p as [|a p IH]; intros f H; [reflexivity|].
+  destruct f as [|b f]; cbn in *; [discriminate|].
+  destruct (if ic then to_lower b =? to_lower a else b =? a); [auto|discriminate].
+Qed.
+Lemma eat_cmp_false_ext ic p f x : eat_cmp ic p f = EatFalse -> eat_cmp ic p (f ++ x) = EatFalse.
+Proof.
+  revert f; induction p as [|a p IH]; intros f H; [discriminate|].
+  destruct f as [|b f]; cbn in *; [discriminate|].
+  destruct (if ic then to_lower b =? to_lower a else b =? a); [auto|reflexivity].
+Qed.
+Lemma eat_cmp_true_len ic p f : eat_cmp ic p f = EatTrue -> (length p <= length f)%nat.
+Proof.
+  revert f; induction p as [|a p IH]; intros f H; [cbn; lia|].
+  destruct f as [|b f]; cbn in *; [discriminate|].
+  destruct (if ic then to_lower b =? to_lower a else b =? a); [|discriminate]. apply IH in H. lia.
+Qed.
+Notation QdropF := (@Qdrop (list N) [] fq_next).
+Lemma qdrop_ext n f x : (n <= length f)%nat -> QdropF n (f ++ x) = QdropF n f ++ x.
+Proof.
+  revert f; induction n as [|n IH]; intros f H; [reflexivity|].
+  destruct f as [|b f]; cbn in *; [lia|]. apply IH. lia.
+Qed.
+Lemma eat_cmp_false_nonempty ic p f : eat_cmp ic p f = EatFalse -> f <> [].
+Proof. destruct p, f; cbn; try discriminate. Qed.
+
+(* U: what eat() does first - push the look-ahead stash back in front of the queue *)
+Definition U (m : M) : M := upd (fun c => c <| temp_buf := [] |>) (unconsumeF (temp_buf (mc m)) m).
+(* the look-ahead stash made when eat() cannot decide yet *)
+Definition stash (m : M) : M :=
+  took (lenN (mq m)) (upd (fun c => c <| temp_buf := mq m |>) (m <| mq := [] |>)).
+
+Lemma U_ext x (m : M) : U (ext x m) = ext x (U m).
+Proof. unfold U. rewrite ext_mc, unconsume_ext, upd_ext. reflexivity. Qed.
+Lemma U_idem (m : M) : temp_buf (mc m) = [] -> U m = m.
+Proof.
+  destruct m as [cf q o k]. cbn. intros H. unfold U, unconsume, gave, upd, lenN, set. cbn. rewrite H. cbn.
+  rewrite N.sub_0_r. destruct cf; cbn in *; subst; reflexivity.
+Qed.
+Lemma U_temp (m : M) : temp_buf (mc (U m)) = [].
+Proof. destruct m; reflexivity. Qed.
+Lemma U_stash (m : M) : temp_buf (mc m) = [] -> U (stash m) = m.
+Proof.
+  destruct m as [cf q o k]. cbn. intros H. unfold U, stash, unconsume, gave, took, upd, lenN, set. cbn.
+  rewrite app_nil_r. replace (N.of_nat (length q) + k - N.of_nat (length q)) with k by lia.
+  destruct cf; cbn in *; subst; reflexivity.
+Qed.
+
+Lemma eat_body_U p e (m : M) : eat_bodyF p e m = eat_bodyF p e (U m).
+Proof.
+  unfold eat_body. fold (U m). fold (U (U m)). rewrite (U_idem (U m)) by apply U_temp. reflexivity.
+Qed.
+
+Inductive eat_result (p : str) (e : bool) (m : M) : option bool * M -> Prop :=
+| er_true : eat_cmp (negb e) p (mq (U m)) = EatTrue ->
+            eat_result p e m (Some true, took (lenN p) (U m <| mq := QdropF (length p) (mq (U m)) |>))
+| er_false : eat_cmp (negb e) p (mq (U m)) = EatFalse -> eat_result p e m (Some false, U m)
+| er_eof : at_eof (mc m) = true -> eat_result p e m (Some false, U m)
+| er_none : at_eof (mc m) = false -> eat_result p e m (None, stash (U m)).
+
+Lemma eat_body_cases p e (m : M) : eat_result p e m (eat_bodyF p e m).
+Proof.
+  unfold eat_body. fold (U m). unfold Qeat.
+  destruct (fq_peek (mq (U m))) eqn:Hp.
+  - destruct (eat_cmp (negb e) p (mq (U m))) eqn:Hc.
+    + destruct (at_eof (mc (U m))) eqn:Ha.
+      * apply er_eof. destruct m; exact Ha.
+      * apply er_none. destruct m; exact Ha.
+    + now apply er_false.
+    + now apply er_true.
+  - destruct (at_eof (mc (U m))) eqn:Ha.
+    + apply er_eof. destruct m; exact Ha.
+    + apply er_none. destruct m; exact Ha.
+Qed.
+
+Lemma eat_body_some_ext p e x (m m' : M) b :
+  at_eof (mc m) = false -> eat_bodyF p e m = (Some b, m') -> eat_bodyF p e (ext x m) = (Some b, ext x m').
+Proof.
+  intros Ha H. unfold eat_body in *. fold (U m) in H. fold (U (ext x m)). rewrite U_ext, ext_mq.
+  unfold Qeat in *. rewrite ext_mc.
+  assert (Ha' : at_eof (mc (U m)) = false) by (destruct m; exact Ha).
+  destruct (mq (U m)) as [|d q'] eqn:Hq; cbn [fq_peek] in H.
+  - rewrite Ha' in H. discriminate.
+  - cbn [fq_peek app]. change (d :: q' ++ x) with ((d :: q') ++ x).
+    destruct (eat_cmp (negb e) p (d :: q')) eqn:Hc.
+    + rewrite Ha' in H. discriminate.
+    + rewrite (eat_cmp_false_ext _ _ _ x Hc). inversion H; reflexivity.
+    + rewrite (eat_cmp_true_ext _ _ _ x Hc). inversion H; subst.
+      rewrite qdrop_ext by (apply eat_cmp_true_len in Hc; exact Hc).
+      destruct (U m); reflexivity.
+Qed.
+
+Lemma eat_body_none p e (m m' : M) : eat_bodyF p e m = (None, m') -> m' = stash (U m) /\ at_eof (mc m) = false.
+Proof.
+  intros H. pose proof (eat_body_cases p e m) as C. rewrite H in C. inversion C; subst; auto.
+Qed.
+
+Lemma eat_body_resume p e x (m m' : M) :
+  eat_bodyF p e m = (None, m') -> eat_bodyF p e (ext x m) = eat_bodyF p e (ext x m').
+Proof.
+  intros H. apply eat_body_none in H. destruct H as [-> _].
+  rewrite (eat_body_U p e (ext x m)), (eat_body_U p e (ext x (stash (U m)))).
+  rewrite !U_ext, U_stash by apply U_temp. reflexivity.
+Qed.
 End Chunk.
